@@ -602,14 +602,14 @@ def gen_spin(rnd):
             steps.append({"name": f"s{i}", "in": [t], "nw": 1, "acts": [{"k": "burn", "d": b}, nxt]})
         total = n * b
     else:
-        k = rnd.randint(4, 8)
-        nw = rnd.choice([1, 1, 2])
+        nw = rnd.choice([1, 2, 2, 3])
+        k = rnd.randint(4, 8) * nw
         steps = [
             {"name": "start", "in": ["Go"], "nw": 1, "acts": [{"k": "send", "type": "EvA", "items": [{} for _ in range(k)]}, {"k": "ret", "type": None}], "declare": ["EvA"]},
             {"name": "work", "in": ["EvA"], "nw": nw, "acts": [{"k": "burn", "d": b}, {"k": "ret", "type": "EvC"}]},
             {"name": "join", "in": ["EvC"], "nw": 1, "acts": [{"k": "collect", "types": ["EvC"] * k}, {"k": "ret", "type": "StopEvent", "result": "const"}]},
         ]
-        total = k * b
+        total = k * b   # (parallel workers burn one after the other on the single loop thread: virtual time adds up)
     deadlines = sorted({round(total * f + 0.013, 4) for f in (0.15, 0.4, 0.7)})
     return {"family": "spin", "steps": steps, "timeout": None, "externals": [], "meta": {"burn": b, "shape": shape, "total": total, "deadlines": deadlines}}
 
@@ -678,20 +678,37 @@ def gen_busyretry(rnd):
             {"name": "join", "in": ["EvC"], "nw": 1, "acts": [{"k": "collect", "types": ["EvC"] * k}, {"k": "ret", "type": "StopEvent", "result": "const"}]},
         ]
         return {"family": "busyretry", "steps": steps, "timeout": None, "externals": [], "meta": {"resource_failure": True, "k": k, "msg": msg}}
+    if rnd.random() < 0.25:
+        # several PARALLEL self-feeding chains of non-yielding steps (each hop returns the next event of its chain): every time the
+        # control loop looks, more than one finished worker is waiting, and it takes them one per pass
+        nch = rnd.randint(2, 3)
+        hops = rnd.randint(8, 12)
+        steps = [
+            {"name": "start", "in": ["Go"], "nw": 1, "acts": [{"k": "send", "type": "EvA", "items": [{"fails": 1}]},
+                                                             {"k": "send", "type": "EvB", "items": [{"left": hops, "chain": c_} for c_ in range(nch)]}, {"k": "ret", "type": None}],
+             "declare": ["EvA", "EvB"]},
+            {"name": "flaky", "in": ["EvA"], "nw": 1, "retry": {"wait": {"k": "fixed", "w": w}, "stop": {"k": "attempt", "n": 3}},
+             "acts": [{"k": "fail", "n": {"from": "fails"}, "exc": "E1"}, {"k": "ret", "type": "EvC"}]},
+            {"name": "cruncher", "in": ["EvB"], "nw": nch, "acts": [{"k": "burn", "d": b}, {"k": "hop", "type": "EvB", "done": "EvD"}]},
+            {"name": "sink", "in": ["EvD"], "nw": 1, "acts": [{"k": "collect", "types": ["EvD"] * nch}, {"k": "ret", "type": "EvE"}]},
+            {"name": "join", "in": ["EvC", "EvE"], "nw": 1, "acts": [{"k": "collect", "types": ["EvC", "EvE"]}, {"k": "ret", "type": "StopEvent", "result": "const"}]},
+        ]
+        return {"family": "busyretry", "steps": steps, "timeout": None, "externals": [], "meta": {"retry_wait": w, "burn": b, "spin": True, "k": nch * hops, "nw": nch, "chains": nch}}
     if rnd.random() < 0.35:
         # the siblings never await at all: a queue of blocking invocations behind one worker, each ready the moment the previous one
         # ends, so the control loop finds a finished worker every time it looks; the retry comes due in the middle of that stretch
-        k = rnd.randint(7, 10)
+        nwc = rnd.choice([1, 2, 2, 3])      # several streams of non-yielding work: more than one finished worker is waiting every time
+        k = rnd.randint(7, 10) * nwc
         steps = [
             {"name": "start", "in": ["Go"], "nw": 1, "acts": [{"k": "send", "type": "EvA", "items": [{"fails": 1}]},
                                                              {"k": "send", "type": "EvB", "items": [{} for _ in range(k)]}, {"k": "ret", "type": None}],
              "declare": ["EvA", "EvB"]},
             {"name": "flaky", "in": ["EvA"], "nw": 1, "retry": {"wait": {"k": "fixed", "w": w}, "stop": {"k": "attempt", "n": 3}},
              "acts": [{"k": "fail", "n": {"from": "fails"}, "exc": "E1"}, {"k": "ret", "type": "EvC"}]},
-            {"name": "cruncher", "in": ["EvB"], "nw": 1, "acts": [{"k": "burn", "d": b}, {"k": "ret", "type": None}]},
+            {"name": "cruncher", "in": ["EvB"], "nw": nwc, "acts": [{"k": "burn", "d": b}, {"k": "ret", "type": None}]},
             {"name": "join", "in": ["EvC"], "nw": 1, "acts": [{"k": "ret", "type": "StopEvent", "result": "const"}]},
         ]
-        return {"family": "busyretry", "steps": steps, "timeout": None, "externals": [], "meta": {"retry_wait": w, "burn": b, "spin": True, "k": k}}
+        return {"family": "busyretry", "steps": steps, "timeout": None, "externals": [], "meta": {"retry_wait": w, "burn": b, "spin": True, "k": k, "nw": nwc}}
     steps = [
         {"name": "start", "in": ["Go"], "nw": 1, "acts": [{"k": "send", "type": "EvA", "items": [{"fails": 1}]},
                                                          {"k": "send", "type": "EvB", "items": [{"lat": [0.1 + w - lead]} for _ in range(n_cr)]}, {"k": "ret", "type": None}],
